@@ -16,6 +16,20 @@ Inductive node := Node {
   nparsed_fpr : option bytes;    (* parsed_parent_fingerprint *)
   nparsed_version : option Z }.
 
+(* PubKeyNode.__repr__: the node's path as a string *)
+Definition py_str_nonneg (n : Z) : list Z :=
+  if n =? 0 then [48] else map (fun d => d + 48) (rev (to_le 10 (S (Z.to_nat (Z.log2 n))) n)).
+Definition py_str_int (n : Z) : list Z := if n <? 0 then 45 :: py_str_nonneg (- n) else py_str_nonneg n.
+Fixpoint node_repr (nd : node) : list Z :=
+  let mark := if is_prv nd then PRV_MARK else PUB_MARK in
+  match nparent nd with
+  | None => mark
+  | Some p =>
+      let idx := if 2147483648 <=? nindex nd then py_str_int (nindex nd - 2147483648) ++ [39]
+                 else py_str_int (nindex nd) in
+      node_repr p ++ 47 :: idx
+  end.
+
 Section Bip32.
 Variable C : curve.
 Variable hmac512 : bytes -> bytes -> bytes.
